@@ -215,6 +215,13 @@ func (e *env) runCrossGroup(j job) {
 	r := run.Rand(4, uint64(j.I))
 	ps := permSetByName([]string{"full", "role-op", "full-minus-present", "full-minus-record"}[r.IntN(4)])
 	w := e.newWorld(fmt.Sprintf("b%dj%d", e.batch, j.I), "", []string{"present", "message"})
+	parent := ""
+	if j.I%2 == 0 {
+		// the actor's group is a subgroup (with a definition of its own); its parent holds a
+		// token that extends to subgroups: still not a token of the actor's own group
+		parent = "par-" + w.tag
+		w.g = parent + "/sub"
+	}
 	w.users["act"] = ps.cfg
 	w.desc = "(operator of " + w.g + " against tokens of " + w.h + ")"
 	defer w.close()
@@ -227,6 +234,18 @@ func (e *env) runCrossGroup(j job) {
 	th, ok2 := w.mkToken(w.h, []string{"present", "message"}, expH, nil)
 	if !ok1 || !ok2 {
 		return
+	}
+	if parent != "" {
+		name := w.newTokenName()
+		exp := expH
+		tokenMu.Lock()
+		_, err := token.Update(&token.Stateful{Token: name, Group: parent, IncludeSubgroups: true, Permissions: []string{"op", "present", "message"}, Expires: &exp}, "")
+		tokenMu.Unlock()
+		if err != nil {
+			w.inconclusive("cannot create a token in-process: " + err.Error())
+			return
+		}
+		e.run.Count("cross_group_parent_tokens_with_subgroups", 1)
 	}
 	a := w.makeActor("joined", ps, "")
 	if a == nil {
@@ -751,18 +770,20 @@ func (e *env) runWhip(j job) {
 		return
 	}
 	path := "/group/" + w.g + "/.whip"
+	lastBody := ""
 	post := func(label, bearer string) (int, string, bool) {
 		h := map[string]string{"Content-Type": "application/sdp"}
 		if bearer != "" {
 			h["Authorization"] = "Bearer " + bearer
 		}
 		w.logf("HTTP POST %s (%s)", path, label)
-		st, hdr, _, err := e.srv.Do("POST", path, h, []byte(e.offer))
+		st, hdr, body, err := e.srv.Do("POST", path, h, []byte(e.offer))
 		if err != nil {
 			w.inconclusive("WHIP POST failed at the transport level: " + err.Error())
 			return 0, "", false
 		}
-		w.logf("OBSERVED status %d location %q", st, hdr.Get("Location"))
+		lastBody = string(body)
+		w.logf("OBSERVED status %d location %q body %d bytes", st, hdr.Get("Location"), len(body))
 		return st, hdr.Get("Location"), true
 	}
 	del := func(loc, bearer string) int {
@@ -803,6 +824,11 @@ func (e *env) runWhip(j job) {
 		}
 		if len(s) > 0 {
 			run.Violation("whip-refused-but-member-remains", fmt.Sprintf("WHIP POST with %s got status %d but the group now has member(s) %v", c.label, st, s), w.replay(j))
+			continue
+		}
+		if strings.Contains(lastBody, "v=0") && strings.Contains(lastBody, "a=ice-ufrag") {
+			// an SDP answer: the server has set up a connection for this ingest
+			run.Violation("whip-refused-but-answered", fmt.Sprintf("WHIP POST with %s got status %d, yet the reply carries an SDP answer (%d bytes): the server has set up the ingest connection it refused", c.label, st, len(lastBody)), w.replay(j))
 			continue
 		}
 		run.Count("whip_refused", 1)
